@@ -1,6 +1,7 @@
 (* C15 - Directory reads return whole entries, each exactly once.
    Property theorems only (proved in Ufs/DirProofs.v). *)
 From Coq Require Import ZArith List Bool.
+From V9 Require Shape.ShapeLib Shape.PUfs15.
 From V9 Require Import Lib.GoSem Ufs.DirWindow Ufs.DirProofs.
 Import ListNotations.
 Local Open Scope Z_scope.
@@ -68,3 +69,10 @@ Proof.
   - exists [50; 60; 49; 70]. split; [reflexivity|]. repeat constructor.
   - vm_compute. repeat split.
 Qed.
+
+
+(* ---- a modelling assumption about the shape of the CURRENT source (Gen/Shape.v), re-checked on every run ---- *)
+(* directory records are packed in the connection's dialect; the two listing tables are reset together *)
+Theorem C15_source_directory_records : ShapeLib.ufs_dir_records = true.
+Proof. exact PUfs15.ufs_dir_records_ok. Qed.
+Print Assumptions C15_source_directory_records.
